@@ -569,7 +569,11 @@ def run_check(prop, argv):
                 seen.add(h)
             if i == m:
                 bit_exact += 1
-            v = prop.judge(c, i)
+            try:
+                v = prop.judge(c, i)
+            except Exception as ex:            # an answer the oracle cannot even parse is not an acceptable answer
+                v = 'the implementation\'s answer could not be interpreted by the oracle (%s: %s): %s' % (
+                    type(ex).__name__, str(ex)[:80], i[:80])
             if v:
                 k = getattr(prop, 'known', lambda c, i, v: None)(c, i, v)
                 # a finding is honoured only if known_findings.json (committed, never written at run time) lists its id
@@ -577,8 +581,13 @@ def run_check(prop, argv):
                     knowns.setdefault(k.split()[0].rstrip(':'), c)
                 else:
                     viols.append((c, i, m, v, profile))
-            elif not compare(c, i, m):
-                mism.append((c, i, m, profile))
+            else:
+                try:
+                    same = compare(c, i, m)
+                except Exception:
+                    same = False
+                if not same:
+                    mism.append((c, i, m, profile))
 
     xc = None
     if cases and model and mok and not replay:
